@@ -72,6 +72,8 @@ pub struct Agg {
     /// (input, output) fingerprints of runs that got past the invariant
     /// filter / reached simplify (fallback measure without the hook build)
     pub deep_pairs: BTreeSet<(u64, u64)>,
+    /// orbifold invariant strings (space-group table keys) seen with verdict yes
+    pub inv_seen: BTreeSet<String>,
 }
 
 fn bump(m: &mut BTreeMap<String, u64>, k: &str) {
@@ -160,6 +162,10 @@ impl Agg {
             bump(&mut self.inconclusive, k);
         }
         for n in &rec.notes {
+            if let Some(inv) = n.strip_prefix("inv:") {
+                self.inv_seen.insert(inv.to_string());
+                continue;
+            }
             bump(&mut self.notes, n);
             if n == "certificate_ok" {
                 self.certificates_ok += 1;
